@@ -1,4 +1,4 @@
-import Glom.Lemmas.C11c
+import Glom.Lemmas.C11d
 import Glom.Model.C11Env
 /-
   C11 — assign obeys the lens laws and fails atomically.
@@ -164,6 +164,79 @@ theorem c11_frame {env : MEnv} {h : Heap} {target : Val} {sroot : Bool} {orig : 
       intro b hlt hb
       rw [(refAssignOp_frame hr').2 b hb, hp b hlt]
 
+/-- **Put-get** (`_partial`: for destinations whose parent exists; when `missing` creates
+    segments the same statement is covered by `c11_eq_python` + the correspondence only):
+    after a successful assign, reading the destination path yields the assigned value — under
+    the hypotheses the proof forces: the parent path does not pass through the written object
+    `d` before reaching it (`hnv`; false only for cyclic targets, see the counter-example below),
+    path arguments are immediate values, the `get` / `assign` registrations pair up, and Python
+    stored the value where the cell can show it (`hnh`: not a hidden attribute of a container
+    subclass, not a scope binding). -/
+theorem c11_put_get_partial {env : MEnv} {h : Heap} {target : Val} {sroot : Bool} {orig : List Step}
+    {vs : ValSpec} {missing : Missing} (hy : Hyps env h target sroot orig vs missing) (sref : Val)
+    (hp : pairedRegs env = true) (has : argsScalar orig = true) (d v : Val)
+    (hm : matchesOf env h orig.dropLast 0 (if sroot then sref else target) = .ok [d])
+    (hsc : isScope env h d = false)
+    (hnv : d ∉ visits env h orig.dropLast (if sroot then sref else target))
+    (hv : refVal env h target vs = some v) (r : Val)
+    (hok : (assign env sroot sref missing h target orig vs).2 = .ok r)
+    (hnh : (assign env sroot sref missing h target orig vs).1.hidden = false) :
+    matchesOf env (assign env sroot sref missing h target orig vs).1.heap orig 0
+      (if sroot then sref else target) = .ok [v] := by
+  have hr := c11_refines hy sref
+  obtain ⟨_, _, hs, _, _, _⟩ := covered_parts hy
+  cases href : refAssign env h target (if sroot then sref else target) orig vs missing with
+  | fail a => rw [href] at hr; obtain ⟨⟨e, he⟩, _⟩ := hr; rw [he] at hok; cases hok
+  | unsupported => rw [href] at hr; exact hr.elim
+  | ok h' hid n =>
+    rw [href] at hr
+    obtain ⟨_, hheap, _, hhid⟩ := hr
+    rw [hheap]
+    rw [hhid] at hnh
+    subst hnh
+    obtain ⟨op, arg, v', hl, hv', hcase⟩ := refAssign_ok_cases href
+    rw [hv] at hv'
+    injection hv' with hv'
+    subst hv'
+    rcases hcase with ⟨ds, hm', hseq, _⟩ | ⟨k, e, stop, kind, op', arg', h1, c, hid', w, _, hm', _, _, _, _⟩
+    · rw [hm] at hm'
+      injection hm' with hm'
+      subst hm'
+      simp only [seqAssign] at hseq
+      cases hra : refAssignOp env h op d arg v with
+      | none => simp [hra] at hseq
+      | some ra =>
+        cases ra with
+        | error e => simp [hra] at hseq
+        | ok w =>
+          simp only [hra] at hseq
+          injection hseq with hseq
+          injection hseq with e1 e2
+          subst e1
+          have hwh : w.hidden = false := by simpa using e2.symm
+          have hfr := refAssignOp_frame hra
+          have hpw : C01.wfSteps orig.dropLast = true :=
+            wfSteps_sub hs (fun s hs' => mem_of_mem_dropLast hs')
+          have hpns := wfSteps_noStar hpw
+          have horig := dropLast_append_getLast? hl
+          have hlastw : C01.wfSteps [(op, arg)] = true := (wfSteps_iff orig).1 hs _ (getLast?_mem hl)
+          have hargk : ∀ a, arg ≠ .ref a := argsScalar_sub has (op, arg) (getLast?_mem hl)
+          have hpas : argsScalar orig.dropLast = true :=
+            argsScalar_of (fun t ht => argsScalar_sub has t (mem_of_mem_dropLast ht))
+          -- the parent path reads the same cells after the write
+          have hpre : matchesOf env w.heap orig.dropLast 0 (if sroot then sref else target) = .ok [d] := by
+            rw [matchesOf_congr_visits orig.dropLast hpns hpas 0 _ ?_, hm]
+            intro c hc a hca
+            subst hca
+            exact hfr.2 a (fun e => hnv (by rw [e]; exact hc))
+          rw [horig, matchesOf_append_ok _ _ hpns 0 _ d hpre]
+          have hrt := refAssign_roundtrip hp hlastw hargk hsc hwh hra
+          have hopb : (op == "." || op == "[" || op == "P") = true := by
+            rcases (wfSteps_op hlastw).1 with rfl | rfl | rfl <;> simp
+          have hnx := (wfSteps_op hlastw).2.1
+          simp [matchesOf, hnx, hopb, hrt]
+    · rw [hm] at hm'; cases hm'
+
 /-- **`missing`**: when the walk stops at segment `k` and a factory is given, a successful
     assign made exactly one factory call per absent segment — `orig.length - 1 - k` of them — and
     (by `c11_frame`) replaced no existing intermediate value: the only pre-existing cell written
@@ -296,6 +369,25 @@ example : (assign exEnv false .none (.factory "dict") exHeap (.ref 0)
     (assign exEnv false .none (.factory "dict") exHeap (.ref 0)
       [("P", .str "t"), ("P", .str "5"), ("P", .str "x")] (.lit (.int 5))).1.heap.take 4 = exHeap := by
   decide
+
+/-- **Counter-example for `hnv`** (forced by the proof; inherent, not a defect — plain Python
+    behaves the same): on the cyclic target `d = {}; d['a'] = d` the parent path `'a'` passes
+    through `d` itself, `assign(d, 'a.a', 5)` overwrites the slot the path traverses, and
+    reading `'a.a'` afterwards fails at segment 1.  (Run on the real glom by the corpus case
+    `cyclic-put-get` of harness/props/c11.py on every check.) -/
+theorem c11_put_get_cyclic_counterexample :
+    let h : Heap := [.dict "dict" [(.str "a", .ref 0)]]
+    let path : List Step := [("P", .str "a"), ("P", .str "a")]
+    let out := assign exEnv false .none .none h (.ref 0) path (.lit (.int 5))
+    (.ref 0 : Val) ∈ visits exEnv h path.dropLast (.ref 0) ∧
+    out.2 = .ok (.ref 0) ∧ out.1.heap = [.dict "dict" [(.str "a", .int 5)]] ∧
+    matchesOf exEnv out.1.heap path 0 (.ref 0) = .fail 1 (exc "AttributeError") (.int 5) := by decide
+
+/-- the put-get hypotheses are satisfiable -/
+example : pairedRegs exEnv = true ∧ argsScalar exPath = true ∧
+    matchesOf exEnv exHeap exPath.dropLast 0 (.ref 0) = .ok [.ref 2] ∧
+    isScope exEnv exHeap (.ref 2) = false ∧
+    (.ref 2 : Val) ∉ visits exEnv exHeap exPath.dropLast (.ref 0) := by decide
 
 /-- regression (repaired defect b8830a0): when a segment is created the value is stored as it
     is — `assign(t, 'n.z', T['a'], missing=dict)` shares `t['a']`, exactly like plain Python -/
